@@ -6,7 +6,7 @@ import os
 import vlib
 
 SUB = "c17"
-MODULES = ["Mtv.Props.C17", "Mtv.Props.C17Life"]
+MODULES = ["Mtv.Props.C17", "Mtv.Props.C17Life", "Mtv.Props.C17Inflight"]
 THEOREMS = [
     "Mtv.Client.tryExpand_total",
     "Mtv.Client.tryExpand_param",
@@ -35,6 +35,10 @@ THEOREMS = [
     "Mtv.Client.Life.runS_no_overlap",
     "Mtv.Client.Life.reader_survives_connection_loss_serialised",
     "Mtv.Client.Life.stranding_history_excluded",
+    "Mtv.Client.process_keeps_unnamed",
+    "Mtv.Client.step_keeps_unnamed",
+    "Mtv.Client.Life.unnamed_request_stays_pending",
+    "Mtv.Client.Life.second_migrating_call_is_stranded",
     "Mtv.Client.Life.migrate_with_hangup_settles",
 ]
 RULE = ("operations: every row of specificErrors (regenerated from the source) and every family of the "
